@@ -49,13 +49,13 @@ theorem helperLines_plain (st : St) : ∀ l ∈ helperLines st, l.needsSah = fal
   simp only [List.mem_append] at hl
   rcases hl with (hl | hl) | hl
   · split at hl
-    · simp at hl; rcases hl with rfl | rfl | rfl | rfl | rfl | rfl | rfl | rfl | rfl <;> simp [Line.needsSah, Line.needsSch, Line.needsSsh]
+    · simp [sahBodyLines] at hl; rcases hl with rfl | rfl | rfl | rfl | rfl | rfl | rfl | rfl | rfl <;> simp [Line.needsSah, Line.needsSch, Line.needsSsh]
     · simp at hl
   · split at hl
-    · simp at hl; rcases hl with rfl | rfl | rfl | rfl | rfl | rfl | rfl | rfl | rfl | rfl | rfl <;> simp [Line.needsSah, Line.needsSch, Line.needsSsh]
+    · simp [schBodyLines] at hl; rcases hl with rfl | rfl | rfl | rfl | rfl | rfl | rfl | rfl | rfl | rfl | rfl <;> simp [Line.needsSah, Line.needsSch, Line.needsSsh]
     · simp at hl
   · split at hl
-    · simp at hl; rcases hl with rfl | rfl | rfl | rfl | rfl | rfl <;> simp [Line.needsSah, Line.needsSch, Line.needsSsh]
+    · simp [sshBodyLines] at hl; rcases hl with rfl | rfl | rfl | rfl | rfl | rfl <;> simp [Line.needsSah, Line.needsSch, Line.needsSsh]
     · simp at hl
 
 /-- **Bash: every helper routine that is called is defined** -- for every program (no hypothesis on the AST):
